@@ -1431,3 +1431,29 @@ var mkFresh = []func() *GX{
 	func() *GX { return mkGX[map[uint8]mkWrap[uint]]("map[uint8]mkWrap[uint]") },
 	func() *GX { return mkGX[mkWrap[mkWrap[mkWrap[uint8]]]]("mkWrap[mkWrap[mkWrap[uint8]]]") },
 }
+
+// deepChain wraps leaf in `levels` combinators (slice, map, pointer, OneOf, Custom, Deferred, Filter, Map - chosen by r),
+// so that a draw that gives up inside the leaf unwinds through every kind of generator frame.
+func deepChain(r *rng, leaf *rapid.Generator[any], levels int) (*rapid.Generator[any], string) {
+	g, desc := leaf, "leaf"
+	for i := 0; i < levels; i++ {
+		inner := g
+		switch k := (int(r.next()%7) + i) % 7; k {
+		case 0:
+			g, desc = rapid.SliceOfN(inner, 1, 1).AsAny(), "Slice1("+desc+")"
+		case 1:
+			g, desc = rapid.Map(inner, func(v any) any { return v }), "Map("+desc+")"
+		case 2:
+			g, desc = rapid.Ptr(inner, false).AsAny(), "Ptr("+desc+")"
+		case 3:
+			g, desc = rapid.OneOf(inner), "OneOf("+desc+")"
+		case 4:
+			g, desc = rapid.Custom(func(t *rapid.T) any { return inner.Draw(t, "c") }), "Custom("+desc+")"
+		case 5:
+			g, desc = rapid.Deferred(func() *rapid.Generator[any] { return inner }), "Deferred("+desc+")"
+		default:
+			g, desc = inner.Filter(func(any) bool { return true }), "Filter("+desc+")"
+		}
+	}
+	return g, desc
+}
